@@ -19,14 +19,14 @@ def check_c14(tier, replay):
         ppath = os.path.join(ind, "race_progs.ndjson")
         n = 0
         with open(ppath, "w") as f:
-            r = vlib.run_tlc(scr, "RaceProgs", "RaceProgs_pairs.cfg", workers=1, timeout=300)
+            r = vlib.run_tlc(scr, "RaceProgs", "RaceProgs_all.cfg" if th else "RaceProgs_pairs.cfg", workers=1, timeout=300)
             vlib.must_ok(r, "RaceProgs pairs")
             v.notes["tlc_pairs"] = r.generated
             for p in vlib.iter_marked(r.outpath, "PROG"):
                 f.write(json.dumps(p) + "\n")
                 n += 1
             # sampled triples: simulation of depth 2
-            cfgp = cc.write_cfg(scr, "RaceProgs_triples.cfg", "SPECIFICATION Spec\nINVARIANT EmitTriples\nCHECK_DEADLOCK FALSE\n")
+            cfgp = cc.write_cfg(scr, "RaceProgs_triples.cfg", "SPECIFICATION Spec\nCONSTANT AllCombos = TRUE\nINVARIANT EmitTriples\nCHECK_DEADLOCK FALSE\n")
             r = vlib.run_tlc(scr, "RaceProgs", "RaceProgs_triples.cfg", workers=1,
                              extra=("-simulate", "num=%d" % (300 if th else 40), "-depth", "2", "-seed", str(vlib.seed())), timeout=300,
                              extra_files=[cfgp])
@@ -43,8 +43,14 @@ def check_c14(tier, replay):
         if kcp_races:
             seen = set()
             for x in kcp_races:
-                frames = re.findall(r"github.com/xtaci/kcp-go/v5\.[^\n(]*\(\)?\n\s+(/repo/[^\s]+)", x)
-                sig = "C14/Race/" + "+".join(sorted(set(os.path.basename(fr.split(":")[0]) + ":" + fr.split(":")[1].split()[0] for fr in frames[:2])))
+                # signature: the first kcp-go function of each of the two conflicting access stacks
+                blocks = re.split(r"\n\n", x)
+                tops = []
+                for b in blocks[:2]:
+                    m = re.search(r"github.com/xtaci/kcp-go/v5\.([^\n]*?)\(\)\n", b)
+                    if m:
+                        tops.append(m.group(1))
+                sig = "C14/Race/" + "+".join(sorted(set(tops)))
                 if sig in seen:
                     continue
                 seen.add(sig)
